@@ -22,6 +22,9 @@ LFLUSH, FFLUSH, PUSHT = 2, 3, 4
 WAIT, RAISE, STRICT = 1, 2, 3
 
 
+L_REST = 3900     # search mode: byte b of the lifo / stack / dist_fifo / multi_signal object = 3900 + b (bytes registered otherwise keep their locs)
+
+
 def parse_case(case):
     v = [int(x) for x in case.split()]
     np_ = v[0]
@@ -55,6 +58,9 @@ def mon_lifo(case, tr, raw):
     is in exactly one place."""
     if tr is None:
         return "implementation produced no trace: %s" % (raw or "")[:80]
+    # search mode (RT_CATCHALL=1): accesses to bytes of the object(s) that have no location of their own are
+    # scheduling points, not events of the protocol judged here
+    tr = [e for e in tr if e[1] < L_REST or e[2] in (909, 919)]
     params, progs = parse_case(case)
     k, nt = params[0], len(progs)
     own = [set(range(t * k + 1, t * k + k + 1)) for t in range(nt)]
@@ -132,6 +138,9 @@ def mon_mstack(case, tr, raw):
     first); at the end pushed = flushed + remaining."""
     if tr is None:
         return "implementation produced no trace: %s" % (raw or "")[:80]
+    # search mode (RT_CATCHALL=1): accesses to bytes of the object(s) that have no location of their own are
+    # scheduling points, not events of the protocol judged here
+    tr = [e for e in tr if e[1] < L_REST or e[2] in (909, 919)]
     params, progs = parse_case(case)
     k, nt = params[0], len(progs)
     own = [set(range(t * k + 1, t * k + k + 1)) for t in range(nt)]
@@ -209,6 +218,9 @@ def mon_distfifo(case, tr, raw):
     pushed = popped + remaining (what is linked behind the dummy)."""
     if tr is None:
         return "implementation produced no trace: %s" % (raw or "")[:80]
+    # search mode (RT_CATCHALL=1): accesses to bytes of the object(s) that have no location of their own are
+    # scheduling points, not events of the protocol judged here
+    tr = [e for e in tr if e[1] < L_REST or e[2] in (909, 919)]
     params, progs = parse_case(case)
     p, nt = params[0], len(progs)
     pool = set(range(2, p + 2))
@@ -311,6 +323,9 @@ def mon_msignal(case, tr, raw):
     it, once; nobody sleeps forever unlisted (lost wake-up)."""
     if tr is None:
         return "implementation produced no trace: %s" % (raw or "")[:80]
+    # search mode (RT_CATCHALL=1): accesses to bytes of the object(s) that have no location of their own are
+    # scheduling points, not events of the protocol judged here
+    tr = [e for e in tr if e[1] < L_REST or e[2] in (909, 919)]
     params, progs = parse_case(case)
     nt = len(progs)
     RAISED = -1
@@ -652,11 +667,12 @@ def search(ctx, exes):
             if not exe:
                 continue
             cases = gen(rng_ctx, "thorough")[:20000]
-            impl = core.run_sharded([exe], cases)
+            # RT_CATCHALL: every byte of the object is a scheduling point (fields the model does not know included)
+            impl = core.run_sharded(["env", "RT_CATCHALL=1", exe], cases)
             for c, line in zip(cases, impl):
-                why = mon(c, core.parse_trace(line) if line else None, line)
+                why = core.safe_monitor(mon, c, core.parse_trace(line) if line else None, line)
                 if why:
-                    core.report_violation(ctx, model, c, why, line)
+                    core.report_violation(ctx, model + "+catchall", c, why, line)
                     if len(ctx.violations) >= 3:
                         return
     finally:
@@ -673,7 +689,9 @@ def corpus(model):
 
 def replay(ctx, payload):
     c = payload.get("case")
-    label = payload.get("harness")
+    label = str(payload.get("harness", ""))
+    catchall = label.endswith("+catchall")
+    label = label[:-len("+catchall")] if catchall else label
     ent = [h for h in HARNESSES if h[0] == label]
     if not c or not ent:
         print("nothing to replay (no concrete case in this file)")
@@ -683,6 +701,11 @@ def replay(ctx, payload):
     if not exe:
         print("harness does not build")
         return 2
+    if catchall:
+        impl = core.run_sharded(["env", "RT_CATCHALL=1", exe], [c])[0]
+        why = core.safe_monitor(mon, c, core.parse_trace(impl) if impl is not None else None, impl)
+        print("harness: %s\ncase:  %s\nimpl (every byte of the object a scheduling point):  %s\nmonitor: %s" % (label, c, impl, why or "ok"))
+        return 1 if why else 0
     impl = core.run_sharded([exe], [c])[0]
     mod = core.model_run(model, [c])[0]
     why = mon(c, core.parse_trace(impl), impl)
